@@ -83,6 +83,8 @@ type Run struct {
 	samples    []any
 	assume     []string
 	level      string
+	capture    bool     // self-test: record violations instead of reporting them
+	captured   []string
 }
 
 func newRun(id, tier string, seed int64) *Run {
@@ -185,6 +187,12 @@ func loadKnown() []knownFinding {
 // key identifies the failing input/call site/history (used to match open known findings);
 // replay is everything needed to re-execute it.
 func (r *Run) violation(key string, replay map[string]any) {
+	if r.capture {
+		r.mu.Lock()
+		r.captured = append(r.captured, key)
+		r.mu.Unlock()
+		return
+	}
 	for _, k := range loadKnown() {
 		if k.Status == "open" && k.Property == r.ID && k.Key == key {
 			r.mu.Lock()
